@@ -585,30 +585,40 @@ fn judge(run: &Run, kv: &Kv, line: &str, req: &[u8], fusedev: bool, asyncp: bool
     }
 }
 
-/// READ whose file system fails after it has already stored part of the data (no model involved:
-/// the scripted answers of the modelled stream fail before they write).  The client must get a
-/// bare error header: on /dev/fuse one 16-byte record, on virtio-fs a header announcing 16 bytes.
-fn read_fault_probe(cx: &Ctx, r: &mut Prng, out: &mut Out) {
+/// READ / READDIR / READDIRPLUS whose file system fails after it has already stored part of the
+/// payload (no model involved: the scripted answers of the modelled stream fail before they
+/// write).  The client must get a bare error header: on /dev/fuse one 16-byte record, on virtio-fs
+/// a header announcing 16 bytes.  Runs on the synchronous or the asynchronous request path.
+fn read_fault_probe(cx: &Ctx, r: &mut Prng, out: &mut Out, asyncp: bool) {
     let fusedev = r.chance(1, 2);
-    let size = r.range(1, 300) as u32;
-    let plen = r.range(1, size as u64) as usize;
+    let op = *r.pick(&[15u32, 15, 28, 44]);
+    let opname = match op { 15 => "read", 28 => "readdir", _ => "readdirplus" };
+    let size = if op == 15 { r.range(1, 300) as u32 } else { r.range(220, 700) as u32 };
     let cap = 16 + size as u64 + *r.pick(&[0u64, 1, 8, 64]);
-    let errno = *r.pick(&[5u64, 28, 4, 11]);
+    let errno = *r.pick(&[5u64, 28, 4, 11, 24]);
     let unique = r.next() | 1;
-    let mut req = srvgen::header(80, 15, unique, 1, 0, 0, 1, 0);
+    let mut req = srvgen::header(80, op, unique, 1, 0, 0, 1, 0);
     req.extend_from_slice(&7u64.to_le_bytes());
     req.extend_from_slice(&0u64.to_le_bytes());
     req.extend_from_slice(&size.to_le_bytes());
     req.extend_from_slice(&[0u8; 20]);
-    let data: Vec<u8> = (0..plen).map(|i| (i * 31 + 7) as u8).collect();
-    let line = if fusedev {
-        format!("t=fusedev cap={} op=15 vu=0 remap=ok req={} ans=perr errno={} data={}", cap, hex(&req), errno, hex(&data))
+    let payload = if op == 15 {
+        let plen = r.range(1, size as u64) as usize;
+        let data: Vec<u8> = (0..plen).map(|i| (i * 31 + 7) as u8).collect();
+        format!("data={}", hex(&data))
     } else {
-        format!("t=virtio cap={} op=15 vu=0 remap=ok seg=80 wseg={} lay={} req={} ans=perr errno={} data={}", cap, cap, r.below(4), hex(&req), errno, hex(&data))
+        let n = r.range(1, 3);
+        let ents: Vec<String> = (0..n).map(|i| format!("{}:{}:{}:{}", hex(format!("n{}", i).as_bytes()), 10 + i, i + 1, 8)).collect();
+        format!("ents={} e_ino=9 mode=33188 nlink=1", ents.join(","))
+    };
+    let line = if fusedev {
+        format!("t=fusedev cap={} op={} vu=0 remap=ok req={} ans=perr errno={} {}", cap, op, hex(&req), errno, payload)
+    } else {
+        format!("t=virtio cap={} op={} vu=0 remap=ok seg=80 wseg={} lay={} req={} ans=perr errno={} {}", cap, op, cap, r.below(4), hex(&req), errno, payload)
     };
     let kv = parse_kv(&line);
-    let run = run_case(cx, &kv);
-    out.stat("probe:read-fault");
+    let run = if asyncp { run_case_async(cx, &kv) } else { run_case(cx, &kv) };
+    out.stat(&format!("probe:{}-fault{}", opname, if asyncp { ":async" } else { "" }));
     let reply = client_reply(&run, fusedev);
     let want_err = (-(errno as i64)) as i32;
     let bad = match &reply {
@@ -624,8 +634,9 @@ fn read_fault_probe(cx: &Ctx, r: &mut Prng, out: &mut Out) {
         }
     };
     if let Some(what) = bad {
-        for p in ["C03", "C01"] {
-            let v = serde_json::json!({"prop": p, "key": format!("{}:read:error-after-partial-data", p), "case": line, "what": what});
+        let props: &[&str] = if asyncp { &["C20", "C01", "C03"] } else { &["C03", "C01"] };
+        for p in props {
+            let v = serde_json::json!({"prop": p, "key": format!("{}:{}:error-after-partial-data{}", p, opname, if asyncp { ":async" } else { "" }), "case": line, "what": what});
             use std::io::Write;
             writeln!(out.oracle, "{}", v).unwrap();
             out.n_oracle += 1;
@@ -919,8 +930,8 @@ fn main() {
         let rk = o.rsplit("ret=").next().unwrap_or("").to_string();
         out.stat(&format!("ret:{}", rk.split(':').take(if rk.starts_with("err") { 2 } else { 1 }).collect::<Vec<_>>().join(":")));
         out.case(&line, &o);
-        if !is_async && prop != "C12" && i % 40 == 7 {
-            read_fault_probe(&cx, &mut r, &mut out);
+        if prop != "C12" && i % 40 == 7 {
+            read_fault_probe(&cx, &mut r, &mut out, is_async);
         }
     }
     out.finish();
